@@ -230,6 +230,11 @@ def r7_shared_datagram_framer_is_stateless(ck, cx):
             continue
         if any(e.kind == 'cond' and e.a is False and U(e.node).replace(' ', '') in ('len(self._buffer)', 'self._buffer') for e in fp.path.ev):
             continue        # the buffer is empty on this path: nothing to retain
+        marks = [k_ for i_, k_, n_ in fp.loops]
+        if marks and marks[-1] == 'backedge':
+            # one iteration is enumerated: a path that ends on the back-edge goes on with the next iteration, it is not a return.
+            # Only the paths that LEAVE the frame loop say what is still buffered when the call returns.
+            continue
         n += 1
         cleared = any(k == 'clear' for i, k in fp.shrinks)
         entered_with_data = True
@@ -239,7 +244,7 @@ def r7_shared_datagram_framer_is_stateless(ck, cx):
                   detail='datagram-bytes-retained %s' % fe[0], loc=cx.floc(f),
                   message='%s shares one socket framer between all peers, and the framer can return with the bytes of an undelivered datagram still '
                           'buffered (%s): they are prepended to the next datagram, from whichever peer' % (fe[0], why))
-    ck.floor('R7', n, 3, 'non-delivering paths of the socket framer')
+    ck.floor('R7', n, 2, 'loop-leaving, non-delivering paths of the socket framer')
 
 
 def _buffer_nonempty(fp):
